@@ -3,6 +3,7 @@ use crate::generators::base::file_writer::FileWriter;
 use crate::generators::base::template_context::FieldContext;
 use crate::generators::base::templates::TemplateRegistry;
 use crate::generators::base::BaseBindingsGenerator;
+use crate::generators::zod::filters::escape_for_js;
 use crate::generators::zod::schema_builder::ZodSchemaBuilder;
 use crate::generators::zod::templates::ZodTemplate;
 use crate::generators::zod::type_visitor::ZodVisitor;
@@ -56,7 +57,7 @@ impl ZodBindingsGenerator {
 
         let variants: Vec<String> = field_contexts
             .iter()
-            .map(|field| format!("\"{}\"", field.serialized_name))
+            .map(|field| format!("\"{}\"", escape_for_js(&field.serialized_name)))
             .collect();
 
         let enum_values = variants.join(", ");
